@@ -3,8 +3,10 @@ package main
 import (
 	"fmt"
 	"os"
+	"strings"
 	"time"
 
+	"github.com/evolbioinfo/gotree/io/newick"
 	"github.com/evolbioinfo/gotree/support"
 	"github.com/evolbioinfo/gotree/tree"
 )
@@ -15,7 +17,10 @@ func init() { register("C10", c10) }
 // never closes its result channel and the caller would block forever.
 const c10Timeout = 4 * time.Second
 
-// case:  ((mode nil|fresh|chain) (ref T) (boots (T ...)) [(alg1 fbp|tbe) (alg2 fbp|tbe) (ref2 T) (boots2 (T ...))])
+// case:  ((mode nil|fresh|chain) (cpus n) (ref T) (boots (B ...)) [(alg1 fbp|tbe) (alg2 fbp|tbe) (ref2 T) (boots2 (B ...))])
+//
+//	B = T | (repeat k T): k consecutive copies of the bootstrap tree T (each copy is built as its own tree)
+//	cpus: the thread count given to FBP / TBE (default 1)
 //
 //	mode nil (or absent): FBP and TBE, each on fresh copies of (ref, boots), Supporter = nil
 //	                      (what the commands pass);            obs ((fbp RUN) (tbe RUN))
@@ -29,29 +34,38 @@ const c10Timeout = 4 * time.Second
 // progress = sup.Progress() after the call (cumulative for a shared Supporter).
 //
 // The library is called the way `gotree compute support fbp|tbe` calls it: the bootstrap trees
-// arrive through a buffered channel of tree.Trees that is closed at the end; cpus = 1; for TBE
+// arrive through a buffered channel of tree.Trees that is closed at the end; for TBE
 // the reference indexes are initialised by the caller and the options are the defaults of the
 // command (no raw tree, no moved-taxa log, cutoff 0.3).
 func c10(c *Sexp) *Sexp {
 	obs := L()
+	cpus := 1
+	if c.Get("cpus") != nil {
+		cpus = c.Int("cpus")
+	}
+	if cpus < 1 {
+		cpus = 1
+	}
 	switch c.Str("mode") {
+	case "family":
+		return c10family(c.Int("m"), c.Int("g"))
 	case "chain":
 		sup := support.NewSupporter()
-		obs.List = append(obs.List, KV("first", c10run(c.Str("alg1"), c.Get("ref"), c.Get("boots"), sup)))
-		obs.List = append(obs.List, KV("second", c10run(c.Str("alg2"), c.Get("ref2"), c.Get("boots2"), sup)))
+		obs.List = append(obs.List, KV("first", c10run(c.Str("alg1"), c.Get("ref"), c.Get("boots"), sup, cpus)))
+		obs.List = append(obs.List, KV("second", c10run(c.Str("alg2"), c.Get("ref2"), c.Get("boots2"), sup, cpus)))
 	case "fresh":
 		for _, alg := range []string{"fbp", "tbe"} {
-			obs.List = append(obs.List, KV(alg, c10run(alg, c.Get("ref"), c.Get("boots"), support.NewSupporter())))
+			obs.List = append(obs.List, KV(alg, c10run(alg, c.Get("ref"), c.Get("boots"), support.NewSupporter(), cpus)))
 		}
 	default:
 		for _, alg := range []string{"fbp", "tbe"} {
-			obs.List = append(obs.List, KV(alg, c10run(alg, c.Get("ref"), c.Get("boots"), nil)))
+			obs.List = append(obs.List, KV(alg, c10run(alg, c.Get("ref"), c.Get("boots"), nil, cpus)))
 		}
 	}
 	return obs
 }
 
-func c10run(alg string, refS, bl *Sexp, sup *support.Supporter) *Sexp {
+func c10run(alg string, refS, bl *Sexp, sup *support.Supporter, cpus int) *Sexp {
 	ref, err := BuildTree(refS)
 	if err != nil {
 		return L(KV("panic", A("build ref: "+err.Error())))
@@ -65,16 +79,25 @@ func c10run(alg string, refS, bl *Sexp, sup *support.Supporter) *Sexp {
 	if bl == nil || !bl.IsList {
 		return L(KV("panic", A("no boots")))
 	}
+	// the collection: every tree is built (and checked) before the call; copies are separate trees
 	boots := make([]*tree.Tree, 0, len(bl.List))
 	for _, b := range bl.List {
-		bt, err := BuildTree(b)
-		if err != nil {
-			return L(KV("panic", A("build boot: "+err.Error())))
+		k := 1
+		ts := b
+		if b.IsList && len(b.List) == 3 && !b.List[0].IsList && b.List[0].Atom == "repeat" {
+			fmt.Sscanf(b.List[1].Atom, "%d", &k)
+			ts = b.List[2]
 		}
-		for i, e := range bt.Edges() {
-			e.SetId(i)
+		for j := 0; j < k; j++ {
+			bt, err := BuildTree(ts)
+			if err != nil {
+				return L(KV("panic", A("build boot: "+err.Error())))
+			}
+			for i, e := range bt.Edges() {
+				e.SetId(i)
+			}
+			boots = append(boots, bt)
 		}
-		boots = append(boots, bt)
 	}
 	// as utils.ReadMultiTrees: a producer goroutine, a channel of capacity 10, closed at the end
 	ch := make(chan tree.Trees, 10)
@@ -100,13 +123,13 @@ func c10run(alg string, refS, bl *Sexp, sup *support.Supporter) *Sexp {
 		}()
 		switch alg {
 		case "fbp":
-			r.err = support.FBP(ref, ch, 1, sup)
+			r.err = support.FBP(ref, ch, cpus, sup)
 		case "tbe":
 			// cmd/booster.go
 			if r.err = ref.ReinitIndexes(); r.err != nil {
 				return
 			}
-			_, r.err = support.TBE(ref, ch, 1, false, false, false, 0.3, os.Stderr, sup)
+			_, r.err = support.TBE(ref, ch, cpus, false, false, false, 0.3, os.Stderr, sup)
 		default:
 			panic("unknown algorithm " + alg)
 		}
@@ -129,4 +152,80 @@ func c10run(alg string, refS, bl *Sexp, sup *support.Supporter) *Sexp {
 		// the goroutines stay blocked; the reference tree is not read (it may still be written)
 		return L(KV("hang", B(true)))
 	}
+}
+
+// c10family: transfer distances on a pair of trees too large for the extracted judge to rebuild.
+//
+//	reference  (((a,b),(c,d)),(e,f),H)      bootstrap  ((H,(c,e)),(a,f),(b,d))
+//
+// H is the same clade on m taxa h00000.. in both trees (groups of g tips under its root).  For the
+// first eleven branches of the reference in Edges() order (the ten branches outside H and the
+// branch above H) the observation gives TopoDepth and support.MinTransferDist(e, ref, boot, ntips,
+// boot.Edges(), absent) for absent = false and true: the computation TBE makes per reference
+// branch and bootstrap tree.  (TBE itself is not called: indexing the ~m branches of the
+// bootstrap tree in the edge hash map takes minutes for m > 65536.)  The trees come from the
+// Newick parser; the bootstrap tree gets its tip index and subtree sizes (UpdateTipIndex,
+// ComputeEdgeHashes: all that MinTransferDist reads from it) but no bitsets, to halve the memory.
+//
+// obs: ((ntips n) (dist ((p dfalse dtrue) ...)))
+func c10family(m, g int) *Sexp {
+	if m < 1 || m > 70000 || g < 2 {
+		return L(KV("panic", A("family: parameters out of range")))
+	}
+	var sb strings.Builder
+	sb.WriteString("(")
+	for i := 0; i < m; i += g {
+		j := i + g
+		if j > m {
+			j = m
+		}
+		if i > 0 {
+			sb.WriteString(",")
+		}
+		if j-i > 1 {
+			sb.WriteString("(")
+		}
+		for k := i; k < j; k++ {
+			if k > i {
+				sb.WriteString(",")
+			}
+			fmt.Fprintf(&sb, "h%05d", k)
+		}
+		if j-i > 1 {
+			sb.WriteString(")")
+		}
+	}
+	sb.WriteString(")")
+	h := sb.String()
+	ref, err := newick.NewParser(strings.NewReader("(((a,b),(c,d)),(e,f)," + h + ");")).Parse()
+	if err != nil {
+		return L(KV("panic", A("family: "+err.Error())))
+	}
+	boot, err := newick.NewParser(strings.NewReader("((" + h + ",(c,e)),(a,f),(b,d));")).Parse()
+	if err != nil {
+		return L(KV("panic", A("family: "+err.Error())))
+	}
+	if err := ref.ReinitIndexes(); err != nil {
+		return L(KV("panic", A("family: "+err.Error())))
+	}
+	if err := boot.UpdateTipIndex(); err != nil {
+		return L(KV("panic", A("family: "+err.Error())))
+	}
+	boot.ComputeEdgeHashes(nil, nil, nil)
+	if err := ref.CompareTipIndexes(boot); err != nil {
+		return L(KV("panic", A("family: "+err.Error())))
+	}
+	ntips := len(ref.Tips())
+	bootedges := boot.Edges()
+	dist := L()
+	for i, e := range ref.Edges() {
+		if i >= 11 {
+			break
+		}
+		p, _ := e.TopoDepth()
+		d0, _, _, _ := support.MinTransferDist(e, ref, boot, ntips, bootedges, false)
+		d1, _, _, _ := support.MinTransferDist(e, ref, boot, ntips, bootedges, true)
+		dist.List = append(dist.List, L(I(p), I(d0), I(d1)))
+	}
+	return L(KV("ntips", I(ntips)), KV("dist", dist))
 }
